@@ -45,6 +45,8 @@ fn settings(g: &mut Sm, focus: &str) -> String {
     };
     let max_step = match focus {
         "C19" => *g.pick(&[0.01, 0.1, 0.3, 1., 1e-5, 1e-7, 0.001, 3e-4, 1.5, 1.2, 1.9]),
+        // moves of a few units in the last place: an undo must be exact at every scale
+        "C06" | "C05" => *g.pick(&[0.001, 0.01, 0.1, 1., 10., 1e-6, 1e-9, 1e-12, 1e-15, 3e-16]),
         _ => *g.pick(&[0.001, 0.01, 0.1, 1., 10., 1e-6]),
     };
     let conv: Option<f64> = match focus {
